@@ -580,6 +580,19 @@ class FunctionVerifier:
     def check_raise(self, I, e):
         c = self.c
         allowed = False
+        if e.term is not None and getattr(c, 'raises_sym', None) is not None:
+            env = dict(I.old_env)
+            for m in c.modifies:
+                env[m] = I.env.get(m, env.get(m))
+            for g in c.ghost:
+                env[g] = I.env[g]
+            env['exc'] = e.term
+            saved = I.env
+            I.env = env
+            g_ = I.to_bool(I.ev_pure(ast.parse(c.raises_sym, mode='eval').body))
+            I.env = saved
+            I.oblige('raise:escaping/allowed', g_, 'raise-path')
+            allowed = True
         if c.raises:
             for exc, guard in c.raises.items():
                 if exc_subclass(e.cls, exc):
